@@ -11,7 +11,7 @@ use derive_where::derive_where;
 
 use crate::{
     Entry, EntryIoStream, EntryWriter, IoStreamError, Observation, Unit, ValidationError,
-    ValueWriter,
+    ValueWriter, entry::SampleGroupElement,
 };
 
 use super::{MetricFlags, MetricValue, Value};
@@ -166,6 +166,10 @@ impl<E: Entry, FLAGS: FlagConstructor> Entry for ForceFlag<E, FLAGS> {
             writer,
             phantom: self.1,
         })
+    }
+
+    fn sample_group(&self) -> impl Iterator<Item = SampleGroupElement> {
+        self.0.sample_group()
     }
 }
 
